@@ -37,6 +37,8 @@ type Hooks struct {
 	OpenFile func(name string, flag int, perm fs.FileMode) (*File, error)
 	Remove   func(name string) error
 	Rename   func(oldName, newName string) error
+	// TempName returns a fresh file name for os.CreateTemp(dir, pattern).
+	TempName func(dir, pattern string) string
 	// RealPath serves the "real file" disk mode (used when the edited tree names *os.File
 	// explicitly, so that verifsim.File cannot stand in for it): it maps a file name to a
 	// path under the simulator's private directory, or returns an injected error.
@@ -233,6 +235,14 @@ func (f *File) Close() error {
 	}
 	if f.CloseFn != nil {
 		return f.CloseFn()
+	}
+	return nil
+}
+
+// Chmod is accepted and ignored by simulated files.
+func (f *File) Chmod(mode fs.FileMode) error {
+	if f != nil && f.Real != nil {
+		return f.Real.Chmod(mode)
 	}
 	return nil
 }
@@ -489,4 +499,28 @@ func RenameReal(o, n string) error {
 		return h.Rename(o, n)
 	}
 	return os.Rename(o, n)
+}
+
+func CreateTemp(dir, pattern string) (*File, error) {
+	if h := H; h != nil && h.OpenFile != nil && h.TempName != nil {
+		return h.OpenFile(h.TempName(dir, pattern), os.O_RDWR|os.O_CREATE|os.O_EXCL, 0o600)
+	}
+	f, err := os.CreateTemp(dir, pattern)
+	if err != nil {
+		return nil, err
+	}
+	return &File{Real: f, Nm: f.Name()}, nil
+}
+
+// CreateTempReal: the temporary file is a real file in the simulator's directory; a later
+// RenameReal(f.Name(), target) hands its content to the simulated disk.
+func CreateTempReal(dir, pattern string) (*os.File, error) {
+	if h := H; h != nil && h.RealPath != nil {
+		p, err := h.RealPath("tempdir", dir)
+		if err != nil {
+			return nil, err
+		}
+		return os.CreateTemp(p, pattern)
+	}
+	return os.CreateTemp(dir, pattern)
 }
